@@ -660,8 +660,15 @@ func (sw *sweeper) call(mode string, rm recvMaker, holder reflect.Value, m refle
 	post := Snap(holder.Elem().Interface())
 	ev.PostLive, ev.PostRO, ev.PostErr, ev.Post = b2s(post.Live), b2s(post.Ronly), post.Err, post.Rest
 	ev.Twin = "same"
-	if tp := Snap(twin); tp.Live != pre.Live || tp.Ronly != pre.Ronly || tp.Err != pre.Err || tp.Rest != pre.Rest {
+	if tp := Snap(twin); strings.HasPrefix(tp.Rest, "SNAP-PANIC") {
+		ev.Twin = "panic: " + tp.Rest // the other holders of the instance can no longer even look at it
+	} else if tp.Live != pre.Live || tp.Ronly != pre.Ronly || tp.Err != pre.Err || tp.Rest != pre.Rest {
 		ev.Twin = "changed"
+	} else if m.Name == "Free" && pre.Live {
+		// the handle Free was called on is gone; every other handle must stay usable
+		if hh := health(twin); hh != "ok" {
+			ev.Twin = "panic: unusable after Free on another handle: " + hh
+		}
 	}
 	if probe && ev.Panic == "" {
 		ev.Health = health(holder.Elem().Interface())
